@@ -2,9 +2,8 @@
 from __future__ import annotations
 
 import ast
-import copy
 
-from ..astx import un, chain, names_read, params, walk_shallow, call_name, paths
+from ..astx import un, chain, names_read, params, walk_shallow, call_name, paths, clone
 from ..core import rule, fixture_for, Unknown
 from ..surface import class_surface, BINARY_DUNDERS, REFLECTED
 
@@ -106,7 +105,7 @@ class _Rename(ast.NodeTransformer):
 
 
 def _renamed(node, mapping):
-    return _Rename(mapping).visit(copy.deepcopy(node))
+    return _Rename(mapping).visit(clone(node))
 
 
 def check_positions(ctx, fn, construct, self_call_names=("_call_binary",)):
